@@ -9,7 +9,8 @@ Contents: (1) `Sim`: a file-like object behaves as a plain `PyFile` (instances: 
 `read_refines` / `seek_set_layout` — the XorEncoded view over the decoded bytes); (2) the fused scan loop up to its first
 yield = head of `C15.needleLoop`, hence (C15 `needleLoop_start`) the least occurrence; (3) key loop, the two phases,
 the all-keys retry, `from_file` = `extractSpec`; (4) order lemmas about `candidates`; (5) the residual key order is a
-permutation. -/
+permutation; (6) `detectRun` (driver side) answers as `C09.fromFileFull`; (7) what it
+returns satisfies the hypothesis `DetOk` of the theorems. -/
 namespace C01
 open Gen.Extract
 
@@ -585,6 +586,218 @@ theorem mem_makeByteList (exclude : List Bytes) (k : Bytes) :
   · rintro ⟨⟨b, rfl⟩, h2⟩
     refine ⟨⟨b.toNat, b.toNat_lt, ?_⟩, h2⟩
     simp
+
+
+
+/-! ### `find_mz_offset` on a view without decoded bytes -/
+
+theorem xread_at_eof (y : C09.XorFile) (h : y.fh.data.length ≤ y.fh.pos) (n : Nat) (hn : 1 ≤ n) :
+    C09.read y (some (n : Int)) = .ok ([], y) := by
+  rw [C09.read_unfold]
+  have hN : C09.normN (some (n : Int)) = (n : Int) := by
+    simp only [C09.normN]; rw [if_neg (by omega)]
+  rw [hN, if_neg (by omega)]
+  obtain ⟨nonce, hno⟩ := C09.readNonce_restores y
+  rw [hno]
+  dsimp only
+  rw [C09.readLoop_at_eof _ _ _ _ h]
+  simp only [List.length_nil, List.take_nil]
+  rw [if_neg (by omega), if_neg (by omega)]
+
+theorem mzStep_short (x : C09.XorFile) (h : x.fh.data.length ≤ x.nonceOff + 8) (start maxrange offset : Nat) :
+    ∃ q, C09.mzStep x start maxrange offset = .ok (none, x.withPos q) := by
+  unfold C09.mzStep
+  rw [C09.seek_set_nonneg x _ (by omega)]
+  dsimp only
+  have hr := xread_at_eof (x.withPos ((((start + offset : Nat) : Int) + x.nonceOff + 8).toNat))
+    (by simp only [C09.XorFile.withPos]; omega) 64 (by omega)
+  have e64 : ((64 : Nat) : Int) = 64 := rfl
+  rw [e64] at hr
+  rw [hr]
+  exact ⟨_, rfl⟩
+
+theorem mzLoop_short (start maxrange : Nat) (k : Nat) : ∀ (offset : Nat) (x : C09.XorFile),
+    x.fh.data.length ≤ x.nonceOff + 8 → ∃ q, C09.mzLoop start maxrange k offset x = .ok (none, x.withPos q) := by
+  induction k with
+  | zero => intro offset x _; exact ⟨x.fh.pos, rfl⟩
+  | succ k ih =>
+    intro offset x h
+    rw [C09.mzLoop_succ]
+    obtain ⟨q, hq⟩ := mzStep_short x h start maxrange offset
+    rw [hq]
+    obtain ⟨q', hq'⟩ := ih (offset + 1) (x.withPos q) h
+    exact ⟨q', hq'⟩
+
+
+
+/-! ### (6) the detector run by the driver is C09's detector -/
+
+theorem needleLoop_frame (B : Nat) (needle : Bytes) (m : Nat) (f : PyFile) (saved : Bytes) :
+    (C15.needleLoop B needle m f saved).2.data = f.data ∧ (C15.needleLoop B needle m f saved).2.kind = f.kind := by
+  fun_induction C15.needleLoop B needle m f saved with
+  | case1 f saved pos hcut => exact ⟨rfl, rfl⟩
+  | case2 f saved pos hcut hblk => exact ⟨rfl, rfl⟩
+  | case3 f saved pos hcut hblk block d offs rest ih => exact ih
+
+theorem iterFindNeedle_frame (B : Nat) (f : PyFile) (needle : Bytes) (s : Option Int) (m : Nat) (r : List Int) (f' : PyFile)
+    (h : C15.iterFindNeedle B f needle s m = .ok (r, f')) : f'.data = f.data ∧ f'.kind = f.kind := by
+  unfold C15.iterFindNeedle at h
+  cases s with
+  | none =>
+    injection h with h
+    have := needleLoop_frame B needle m f []
+    rw [h] at this; exact this
+  | some v =>
+    simp only at h
+    cases hs : f.seekSet v with
+    | error e => rw [hs] at h; cases h
+    | ok p =>
+      obtain ⟨q, g⟩ := p
+      rw [hs] at h
+      injection h with h
+      have := needleLoop_frame B needle m g []
+      rw [h] at this
+      unfold PyFile.seekSet at hs
+      split at hs
+      · cases hs
+      · injection hs with hs
+        injection hs with _ hg
+        subst hg
+        exact this
+
+attribute [local irreducible] C09.mzLoop
+
+theorem tryCands_cons (g : PyFile) (c : Nat) (cs : List Nat) :
+    tryCands g (c :: cs) =
+      match C09.mk' g c with
+      | .error e => .error e
+      | .ok xf =>
+        match C09.findMzOffset xf 0 1024 with
+        | .error e => .error e
+        | .ok (some _, xf1) =>
+          match C09.seek xf1 0 0 with
+          | .error e => .error e
+          | .ok (_, xf') => .ok (some xf', xf'.fh)
+        | .ok (none, xf1) => tryCands xf1.fh cs := by rfl
+
+theorem tryCands_refines : ∀ (cs : List Nat) (g g' : PyFile), g.data = g'.data → g.kind = g'.kind →
+    (∀ x h, tryCands g cs = .ok (some x, h) → C09.tryCandidatesFull g' cs = .ok x) ∧
+    (∀ h, tryCands g cs = .ok (none, h) → C09.tryCandidatesFull g' cs = .error .valueError) := by
+  intro cs
+  induction cs with
+  | nil =>
+    intro g g' _ _
+    refine ⟨?_, fun _ _ => rfl⟩
+    intro x h hh
+    have : tryCands g [] = .ok (none, g) := rfl
+    rw [this] at hh
+    injection hh with hh
+    injection hh with hh _
+    cases hh
+  | cons c cs ih =>
+    intro g g' hd hk
+    have hmk := C09.mk'_congr g g' c hd hk
+    rw [tryCands_cons, C09.tryCandidatesFull_cons, ← hmk]
+    cases C09.mk' g c with
+    | error e => exact ⟨fun x h hh => (by cases hh), fun h hh => (by cases hh)⟩
+    | ok xf =>
+      simp only
+      cases C09.findMzOffset xf 0 1024 with
+      | error e => exact ⟨fun x h hh => (by cases hh), fun h hh => (by cases hh)⟩
+      | ok p =>
+        obtain ⟨r, xf1⟩ := p
+        cases r with
+        | none => exact ih xf1.fh xf1.fh rfl rfl
+        | some v =>
+          simp only
+          cases C09.seek xf1 0 0 with
+          | error e => exact ⟨fun x h hh => (by cases hh), fun h hh => (by cases hh)⟩
+          | ok q =>
+            obtain ⟨_, xf'⟩ := q
+            refine ⟨?_, fun h hh => (by cases hh)⟩
+            intro x h hh
+            injection hh with hh
+            injection hh with hh _
+            injection hh with hh
+            rw [hh]
+
+/-- the detector the driver runs (`detectRun`, which also reports where a failing run leaves the file) gives the answer of
+C09's `fromFileFull` for the marker hits the C15 scan reports -/
+theorem detectRun_refines (B : Nat) (f : PyFile) (offs : List Nat) (f1 : PyFile) (hits : List Int) (f2 : PyFile)
+    (h1 : C09.iterNonceOffsets f none 1024 = .ok (offs, f1))
+    (h2 : C15.iterFindNeedle B f1 [0xff, 0xff, 0xff] (some 0) 1024 = .ok (hits, f2)) :
+    (∀ x g, detectRun B f = .ok (some x, g) → C09.fromFileFull f 1024 (hits.map Int.toNat) = .ok x) ∧
+    (∀ g, detectRun B f = .ok (none, g) → C09.fromFileFull f 1024 (hits.map Int.toNat) = .error .valueError) := by
+  obtain ⟨hd, hk⟩ := iterFindNeedle_frame B f1 _ _ _ _ _ h2
+  simp only [detectRun, C09.fromFileFull, h1, h2]
+  exact tryCands_refines _ f2 f1 hd hk
+
+
+
+/-! ### (7) a detected view has its header inside the file (`DetOk` for the driver's detector) -/
+
+theorem tryCands_bound : ∀ (cs : List Nat) (g : PyFile) (x : C09.XorFile) (h : PyFile),
+    tryCands g cs = .ok (some x, h) → x.nonceOff + 8 < g.data.length := by
+  intro cs
+  induction cs with
+  | nil =>
+    intro g x h hh
+    have : tryCands g [] = .ok (none, g) := rfl
+    rw [this] at hh
+    injection hh with hh
+    injection hh with hh _
+    cases hh
+  | cons c cs ih =>
+    intro g x h hh
+    rw [tryCands_cons] at hh
+    obtain ⟨xf, hxf, hoff, hdata, _⟩ := C09.mk'_ok g c
+    rw [hxf] at hh
+    simp only at hh
+    obtain ⟨r, q, hr⟩ := C09.findMzOffset_total xf 0 1024
+    rw [hr] at hh
+    cases r with
+    | none =>
+      simp only at hh
+      have := ih _ x h hh
+      simp only [C09.XorFile.withPos] at this
+      rw [hdata] at this
+      exact this
+    | some v =>
+      simp only at hh
+      rw [C09.seek0_ok] at hh
+      simp only at hh
+      injection hh with hh
+      injection hh with hh _
+      injection hh with hh
+      subst hh
+      simp only [C09.XorFile.withPos]
+      rw [hoff]
+      apply Classical.byContradiction
+      intro hlt
+      have hshort : xf.fh.data.length ≤ xf.nonceOff + 8 := by rw [hdata, hoff]; omega
+      obtain ⟨q', hq'⟩ := mzLoop_short 0 1024 1024 0 xf hshort
+      have : C09.findMzOffset xf 0 1024 = .ok (none, xf.withPos q') := hq'
+      rw [this] at hr
+      injection hr with hr
+      injection hr with hr _
+      cases hr
+
+/-- a view returned by the detector has its nonce and size dword (and more) inside the file -/
+theorem detectRun_bound (B : Nat) (f : PyFile) (x : C09.XorFile) (g : PyFile)
+    (h : detectRun B f = .ok (some x, g)) : x.nonceOff + 8 < f.data.length := by
+  unfold detectRun at h
+  obtain ⟨offs, f1, h1, hd1, _⟩ := C09.iterNonceOffsets_ok f 1024
+  rw [h1] at h
+  simp only at h
+  cases h2 : C15.iterFindNeedle B f1 [0xff, 0xff, 0xff] (some 0) 1024 with
+  | error e => rw [h2] at h; cases h
+  | ok p =>
+    obtain ⟨hits, f2⟩ := p
+    rw [h2] at h
+    simp only at h
+    have := tryCands_bound _ f2 x g h
+    rw [(iterFindNeedle_frame B f1 _ _ _ _ _ h2).1, hd1] at this
+    exact this
 
 
 end C01
